@@ -38,6 +38,12 @@ pub fn run(args: &Args, r: &mut Report) {
         let mut case = gen_history(&mut rng, &cfg);
         let apps = case.setup.apps.clone();
         let l1 = add_reboot_waits(&mut case.script, &mut rng, true, &apps);
+        // replies that change the server-dictated poll interval make the library commit in the middle of a check:
+        // whatever such a commit stores must still be one consistent step
+        if rng.chance(1, 3) {
+            let l2 = decorate_retry_after_opt(&mut case.script, &mut rng, 1, 3, false);
+            case.shape.push(l2);
+        }
         case.sched = Sched::Random;
         case.shape.push(l1);
         case.nontrivial = true;
